@@ -172,6 +172,14 @@ func (e *secretExec) setup() {
 		return
 	}
 	e.ok = true
+	if len(e.p.Plain) >= 16 {
+		// nothing in this Meta may hold the plaintext, under any key
+		for k, v := range m.Iter() {
+			if bytes.Contains([]byte(nodeHex(v)), []byte(fmt.Sprintf("%x", e.p.Plain))) {
+				o.Violate("C19", "plaintext-visible", "the plaintext occurs in the metadata entry "+k, nil)
+			}
+		}
+	}
 	got, err := e.read(m, "k", e.p.Key)
 	e.sig("none", "direct")
 	if err != nil || !bytes.Equal(got, e.p.Plain) {
@@ -291,7 +299,11 @@ func (e *secretExec) step(s *SecStep) {
 			seen[string(b)] = where
 		}
 		m := meta.NewMeta()
-		for i := 0; i < 3; i++ {
+		reps := s.N
+		if reps < 3 {
+			reps = 3
+		}
+		for i := 0; i < reps; i++ {
 			k := fmt.Sprintf("k%d", i)
 			if err := m.AddEncrypted(k, e.val(), p.Key); err == nil {
 				b, _ := m.GetBytes(k)
@@ -435,7 +447,7 @@ func genSecret(r *Rand, g GenCfg) Plan {
 	} else {
 		p.Plain = r.Bytes(n)
 	}
-	p.Steps = []SecStep{{Op: "roundtrip"}, {Op: "fresh"}, {Op: "confidential"}}
+	p.Steps = []SecStep{{Op: "roundtrip"}, {Op: "fresh", N: Pick(r, []int{3, 20, 70, 300})}, {Op: "confidential"}}
 	if n <= 2000 {
 		p.Steps = append(p.Steps, SecStep{Op: "flip_all", Hi: -1}, SecStep{Op: "trunc_all", Hi: -1})
 	} else {
